@@ -90,6 +90,12 @@ RULE = ('(a) caching contract: bodies (valid / truncated / wrong encoding / empt
         'version= / profile= / q= alone), stock / subclassed / explicit-dumps JSONHandler, falcon.Response and falcon.asgi.Response: the rendered bytes are UTF-8 JSON of the document, the other stack renders the same bytes, '
         'and the body posted back with the same content type under every chunking class gives the document; '
         '(b2) the same through whole apps (the responder sets the parameterised content type; 10 handler variants x 6 app constructions x both stacks on either side); '
+        '(b3) handler INTERFACE SHAPE x request FRAMING: an application BaseHandler subclass for a vendor / +json / text type implementing only serialize+deserialize, only serialize_async+deserialize_async, or both, '
+        'whose deserializer ignores content_length, uses it the way its interface documents it (sync: stream.read(content_length or 0); async: read(content_length) when given, read() when None) or refuses a GIVEN '
+        'content_length that is not the number of bytes read; exhaust_stream on / off; the bytes the handler serialized on an app of either stack come back WITH a Content-Length header, WITHOUT one (ASGI scope built '
+        'without the header, body in http.request events under every chunking class incl. empty events; WSGI: no header = no body), or as an empty body with / without the header (1-3 empty events), x 1-4 accesses '
+        '(media / get_media() / get_media(default_when_empty=D), falsy defaults): every access returns the served document (same object), the handler parsed exactly once, the half that ran is the one the stack calls for, '
+        'an empty body gives not-found / the default; the full directed product shape x use x stack x framing runs every time (sharded) plus random cases; every access history also goes to the Mc model; '
         '(c) JSON format: float-free documents (nesting <= 5, escape-worthy/astral/control characters, ints up to the 4300-digit limit) serialized by JSONHandler vs the model byte for byte; JSON texts '
         '(documents re-spelled with arbitrary whitespace, short/\\uXXXX/surrogate-pair escapes, duplicate keys, -0; 0-2 single-character edits; injected invalid UTF-8; a fixed list of edge texts) '
         'deserialized by JSONHandler vs the model (value, not-found or malformed; plus the bare loads); texts whose value has a float or a lone surrogate are skipped and counted; '
@@ -102,7 +108,9 @@ PARTIAL = ('proved: the caching / error-caching / default contract of get_media,
            'loads(dumps(d)) = d over a native model of the text format for float-free documents (distinct keys, ints <= 4300 digits). '
            'Not proved: the round trip of float values (repr/float parsing; validated by the round-trip oracle only), documents nested beyond the interpreter recursion limit (a resource limit, '
            'not modelled); chunking independence is inherited from C07. The form (urlencoded) round trip IS proved (Uf.deserialize_serialize, on top of the C08 parser theorems) for '
-           'documents whose names and values are str (valid UTF-8, no lone surrogates) or lists of str; non-str scalars (urlencode applies str() to them), bytes values and nested sequences are outside the Uf model.')
+           'documents whose names and values are str (valid UTF-8, no lone surrogates) or lists of str; non-str scalars (urlencode applies str() to them), bytes values and nested sequences are outside the Uf model. '
+           'The sync-to-async adapter BaseHandler.deserialize_async (read everything, hand the sync deserialize a BytesIO and the true length) is NOT in the Lean model: custom handlers of every interface shape under every '
+           'request framing (b3) are judged by the round-trip oracle only; their access histories are fed to Mc.getMedia, which models the handler as one opaque outcome.')
 JOBS = {'quick': 4, 'thorough': 16}
 LEVEL_TEXT = ('Lean 4 theorems over a model of Request.get_media (both request classes), the JSON handler wrapper and the response render cache: for every handler outcome and every call '
               'sequence the handler runs at most once, later calls return the same object or error without touching the stream, the default is returned only for media-not-found and never '
@@ -1000,6 +1008,197 @@ def run(ctx):
         ctx.seen(('b2', repr(doc), s_out, c_out, s_in, c_in), True)
         ctx.count('fullstack_roundtrip_' + ('falsy' if not doc else 'doc'))
         ctx.count('fullstack_app_' + c_out)
+
+    # ------------------------------------------------------------ (b3) handler INTERFACE SHAPE x request FRAMING
+    # An application's own media handler (a BaseHandler subclass for a vendor / +json type) implements only the sync pair, only the async
+    # pair, or both; its deserializer reads the body (i) ignoring content_length, (ii) the way each interface documents it - sync:
+    # stream.read(content_length or 0); async: read(content_length) when it is given, read() when it is None - or (iii) reading everything
+    # and refusing when a GIVEN content_length is not the number of bytes read.  The served bytes come back as a request WITH a
+    # Content-Length header, WITHOUT one (ASGI: the scope is built without the header and the body comes in http.request events, i.e. a
+    # chunked upload; WSGI: a request without the header has no body), or with an empty body, under every chunking class, on both stacks.
+    # Oracle (the statement): the document the handler serialized is what get_media() / media return (same object at every access),
+    # the handler parsed at most once; an empty body gives what the handler documents (not-found, or the caller's default).
+    # The access history also goes to the Mc model.
+    VND_TYPES = ['application/vnd.acme.doc+json', 'application/x-doc', 'application/vnd.acme.v2+json', 'text/x-doc']
+    SHAPES = ['sync_only', 'async_only', 'both']
+    USES = ['ignore', 'documented', 'guard']
+
+    def make_shape_handler(shape, use, exhaust, log):
+        def parse(data):
+            if not data: raise errors.MediaNotFoundError('DOC')
+            try:
+                return json.loads(data.decode('utf-8'))
+            except ValueError as e:
+                raise errors.MediaMalformedError('DOC') from e
+
+        def serialize(self, m, content_type=None):
+            log.append(('serialize', None)); return json.dumps(m, ensure_ascii=False).encode('utf-8')
+
+        async def serialize_async(self, m, content_type=None):
+            log.append(('serialize_async', None)); return json.dumps(m, ensure_ascii=False).encode('utf-8')
+
+        def deserialize(self, stream, content_type, content_length):
+            log.append(('deserialize', content_length))
+            if use == 'documented': data = stream.read(content_length or 0)
+            else: data = stream.read()
+            if use == 'guard' and content_length is not None and content_length != len(data):
+                raise errors.MediaMalformedError('DOC') from ValueError(f'content_length={content_length} for {len(data)} bytes')
+            return parse(data)
+
+        async def deserialize_async(self, stream, content_type, content_length):
+            log.append(('deserialize_async', content_length))
+            if use == 'documented' and content_length is not None: data = await stream.read(content_length)
+            else: data = await stream.read()
+            if use == 'guard' and content_length is not None and content_length != len(data):
+                raise errors.MediaMalformedError('DOC') from ValueError(f'content_length={content_length} for {len(data)} bytes')
+            return parse(data)
+        ns = {'exhaust_stream': exhaust}
+        if shape in ('sync_only', 'both'): ns.update(serialize=serialize, deserialize=deserialize)
+        if shape in ('async_only', 'both'): ns.update(serialize_async=serialize_async, deserialize_async=deserialize_async)
+        return type('DocHandler_' + shape, (media.BaseHandler,), ns)()
+
+    def post_framed(stack, app, ctype, body, framing, chunks):
+        """one POST through the whole app with the given framing; returns the status code"""
+        hdrs = {'Content-Type': ctype}
+        if framing == 'cl': hdrs['Content-Length'] = str(len(body))
+        if stack == 'wsgi':
+            env = ft.create_environ(method='POST', path='/', headers=hdrs)
+            env['wsgi.input'] = io.BytesIO(body)
+            if framing == 'cl': env['CONTENT_LENGTH'] = str(len(body))
+            else: env.pop('CONTENT_LENGTH', None)
+            st = []
+            b''.join(app(env, lambda sline, h, e=None: st.append(sline)))
+            return int(st[0][:3])
+        scope = ft.create_scope(method='POST', path='/', headers=hdrs)
+        scope['headers'] = [tuple(h) for h in scope['headers']]          # (create_scope hands out one-shot iterators)
+        has_cl = any(k.lower() == b'content-length' for k, _ in scope['headers'])
+        assert has_cl == (framing == 'cl'), 'harness: scope framing'
+        evs = [{'type': 'http.request', 'body': c, 'more_body': i < len(chunks) - 1} for i, c in enumerate(chunks)]
+        out = {}
+
+        async def go():
+            never = asyncio.get_running_loop().create_future()
+
+            async def receive():
+                if evs: return evs.pop(0)
+                await never
+
+            async def send(m):
+                if m['type'] == 'http.response.start': out['status'] = m['status']
+            await asyncio.wait_for(app(scope, receive, send), 5)
+        asyncio.run(go())
+        return out['status']
+
+    name_b3 = ('custom handler round trip: the document an application media handler (sync pair only / async pair only / both; using its content_length argument or not) serialized is the '
+               'document get_media() / media return - with, without a Content-Length header, with an empty body, every chunking class, both stacks - parsed at most once')
+    DIRECTED3 = [(sh, us, st_, fr) for sh in SHAPES for us in USES for st_ in ('wsgi', 'asgi') for fr in ('cl', 'nocl', 'empty_cl', 'empty_nocl')
+                 if not (sh == 'async_only' and st_ == 'wsgi') and not (st_ == 'wsgi' and fr == 'nocl')]
+    DIRECTED3 = [d for j, d in enumerate(DIRECTED3) if j % ctx.shard[1] == ctx.shard[0]]
+    for ci in range(len(DIRECTED3) + ctx.n(120, 2500)):
+        if ci < len(DIRECTED3):
+            h_in, use, s_in, fr = DIRECTED3[ci]
+        else:
+            s_in = rnd.choice(['wsgi', 'asgi', 'asgi'])
+            h_in = rnd.choice(SHAPES if s_in == 'asgi' else ['sync_only', 'both'])
+            use = rnd.choice(USES)
+            fr = rnd.choice(['cl', 'nocl', 'nocl', 'empty_cl', 'empty_nocl'] if s_in == 'asgi' else ['cl', 'cl', 'empty_cl', 'empty_nocl'])
+        s_out = rnd.choice(['wsgi', 'asgi'])
+        h_out = rnd.choice(SHAPES if s_out == 'asgi' else ['sync_only', 'both'])
+        exhaust = rnd.random() < 0.3
+        vtype = rnd.choice(VND_TYPES)
+        rtype = vtype + rnd.choice(['', '', '; v=2', '; charset=utf-8'])
+        doc = copy.deepcopy(rnd.choice(FALSY)) if rnd.random() < 0.25 else (LJ.gen_text_doc(rnd) if rnd.random() < 0.3 else gen_doc())
+        if doc is None: doc = [None]
+        served = copy.deepcopy(doc)
+        seq3 = [rnd.choice(['m', 'd', 'p']) for _ in range(rnd.randint(1, 4))]
+        DEF3 = rnd.choice([None, {}, [], 0, '', False, object()]) if fr.startswith('empty') else object()
+        log_out, log_in = [], []
+        outs3 = []; ids3 = {}; chunks = []
+        if s_out == 'wsgi':
+            class G3:
+                def on_get(self, req, resp):
+                    resp.content_type = rtype; resp.media = served
+        else:
+            class G3:
+                async def on_get(self, req, resp):
+                    resp.content_type = rtype; resp.media = served
+
+        def rec3(v):
+            outs3.append((('dflt',) if v is DEF3 else ('value', ids3.setdefault(id(v), len(ids3)), copy.deepcopy(v))) + (len([1 for x in log_in if x[0].startswith('deserialize')]),))
+
+        def rec3e(e):
+            outs3.append(('raise', exc_tag(e), e, len([1 for x in log_in if x[0].startswith('deserialize')])))
+        if s_in == 'wsgi':
+            class P3:
+                def on_post(self, req, resp):
+                    for s in seq3:
+                        try:
+                            rec3(req.get_media() if s == 'm' else (req.get_media(default_when_empty=DEF3) if s == 'd' else req.media))
+                        except Exception as e:  # noqa
+                            rec3e(e)
+        else:
+            class P3:
+                async def on_post(self, req, resp):
+                    for s in seq3:
+                        try:
+                            rec3(await (req.get_media() if s == 'm' else (req.get_media(default_when_empty=DEF3) if s == 'd' else req.media)))
+                        except Exception as e:  # noqa
+                            rec3e(e)
+        failed = None
+        framing_body = not fr.startswith('empty')
+        case = {'document': doc, 'content_type': rtype, 'serving_app': s_out, 'serving_handler_implements': h_out, 'receiving_app': s_in, 'receiving_handler_implements': h_in,
+                'receiving_handler_uses_content_length': use, 'exhaust_stream': exhaust, 'request_framing': fr, 'accesses': seq3}
+        try:
+            a_out = build(s_out, 'plain'); a_out.add_route('/', G3())
+            a_out.resp_options.media_handlers[vtype] = make_shape_handler(h_out, 'ignore', False, log_out)
+            a_in = build(s_in, 'plain'); a_in.add_route('/', P3())
+            a_in.req_options.media_handlers[vtype] = make_shape_handler(h_in, use, exhaust, log_in)
+            st, hd, body = serve(s_out, a_out, 'GET')
+            if st != 200: failed = f'serving the document answered {st}'
+            elif hd.get('content-type') != rtype: failed = f'the responder set Content-Type {rtype!r}, the response carries {hd.get("content-type")!r}'
+            elif len(log_out) != 1: failed = f'the serving handler serialized {len(log_out)} times ({log_out})'
+            else:
+                try:
+                    if not eq_doc(json.loads(body.decode('utf-8')), doc): failed = f'the body sent {body[:60]!r} is not what the handler serialized'
+                except Exception as e:  # noqa
+                    failed = f'the body sent {body[:60]!r} does not decode: {type(e).__name__}'
+            if failed is None:
+                sent = body if framing_body else b''
+                framing = 'cl' if fr in ('cl', 'empty_cl') else 'nocl'
+                chunks = rnd.choice(list(chunkings(sent))) if sent else rnd.choice([[b''], [b'', b''], [b'', b'', b'']])
+                case['request_body'] = sent[:200]; case['request_body_len'] = len(sent)
+                case['events'] = [len(c) for c in chunks] if s_in == 'asgi' else None
+                stp = post_framed(s_in, a_in, hd['content-type'], sent, framing, chunks)
+                des_calls = [x for x in log_in if x[0].startswith('deserialize')]
+                case['content_length_seen_by_the_handler'] = [x[1] for x in des_calls]
+                got = [o[0] if o[0] != 'raise' else 'raise ' + o[1] for o in outs3]
+                if framing_body:
+                    exp = ['value'] * len(seq3)
+                else:
+                    exp = ['dflt' if s == 'd' else 'raise nf' for s in seq3]
+                vals = [o for o in outs3 if o[0] == 'value']
+                if stp != 200: failed = f'posting the served bytes back answered {stp}'
+                elif got != exp: failed = f'accesses answered {got}, the statement requires {exp}'
+                elif vals and not all(eq_doc(o[2], doc) for o in vals): failed = f'received {vals[0][2]!r}'
+                elif len({o[1] for o in vals}) > 1: failed = 'later accesses returned a different object'
+                elif len(des_calls) > 1: failed = f'the handler deserialized {len(des_calls)} times ({des_calls})'
+                elif framing_body and len(des_calls) != 1: failed = f'the handler deserialized {len(des_calls)} times'
+                else:
+                    want = 'deserialize' if (s_in == 'wsgi' or h_in == 'sync_only') else 'deserialize_async'
+                    if des_calls and des_calls[0][0] != want: failed = f'{des_calls[0][0]}() ran on {s_in} for a handler implementing {h_in} (expected {want}())'
+                # model correspondence: the access history against Mc.getMedia
+                sess.case({'b3': True, 'stack': s_in, 'shape': h_in, 'use': use, 'framing': fr, 'seq': seq3})
+                sess.op(f'new {"ok:0" if framing_body else "nf"} {1 if exhaust else 0}', 'ok')
+                for s, o in zip(seq3, outs3):
+                    r = 'dflt' if o[0] == 'dflt' else (f'value {o[1]}' if o[0] == 'value' else f'raise {o[1]}')
+                    sess.op(f'get {1 if s == "d" else 0}', f'{r} des={o[-1]}')
+        except Exception as e:  # noqa
+            failed = f'{type(e).__name__}: {e}'
+        ctx.oracle(name_b3, failed is None, failed, case)
+        ctx.seen(('b3', repr(doc), s_out, h_out, s_in, h_in, use, fr, tuple(seq3)), framing_body)
+        ctx.count(f'shape_{h_in}_on_{s_in}_framing_{fr}'); ctx.count('shape_uses_content_length_' + use)
+        ctx.count('shape_serving_' + h_out + '_on_' + s_out)
+        if s_in == 'asgi' and fr == 'nocl': ctx.count('shape_asgi_headerless_events_%s' % ('1' if len(chunks) == 1 else 'many'))
 
     # ------------------------------------------------------------ (c) the JSON text format of the default handler vs the Js model
     from runner import hx, alarm, Hang
